@@ -6,6 +6,8 @@ import (
 	"fmt"
 	"math/rand"
 	"net/url"
+	"os"
+	"path/filepath"
 	"servitor/ansi"
 	"servitor/config"
 	"servitor/jtp"
@@ -13,6 +15,7 @@ import (
 	"servitor/ui"
 	"strings"
 	"sync"
+	"sync/atomic"
 	"time"
 )
 
@@ -40,11 +43,18 @@ func linkTable(v any, out *[]any) {
 	}
 }
 
-func waitSettled(s *ui.State) bool {
+var hookSeq = 0
+
+func waitSettled(s *ui.State) bool { return waitSettledWith(s, s.VerifSettled) }
+
+/* with a harness-held hook, `opening` is a resting state */
+func waitSettledHeld(s *ui.State) bool { return waitSettledWith(s, s.VerifSettledHookHeld) }
+
+func waitSettledWith(s *ui.State, settled func() bool) bool {
 	deadline := time.Now().Add(8 * time.Second)
 	stable := 0
 	for time.Now().Before(deadline) {
-		if s.VerifSettled() {
+		if settled() {
 			stable++
 			if stable >= 2 {
 				return true
@@ -109,6 +119,26 @@ func init() {
 		}
 		config.Parsed.Feeds = feeds
 		defer func() { config.Parsed.Feeds = savedFeeds }()
+		/* the media hook is a program the harness holds until a HOOKDONE token releases it */
+		hookSeq++
+		gate := filepath.Join(os.Getenv("VERIF_SCRATCH"), fmt.Sprintf("gate-%d-%d", os.Getpid(), hookSeq))
+		hookLog := gate + ".log"
+		os.Remove(gate)
+		os.Remove(hookLog)
+		os.Setenv("VERIF_HOOK_GATE", gate)
+		os.Setenv("VERIF_HOOK_LOG", hookLog)
+		savedHook := config.Parsed.Media.Hook
+		config.Parsed.Media.Hook = []string{"verifwait", "%url"}
+		releaseHooks := func() {
+			os.WriteFile(gate, []byte("go"), 0o644)
+			time.Sleep(40 * time.Millisecond)
+			os.Remove(gate)
+		}
+		defer func() {
+			releaseHooks()
+			config.Parsed.Media.Hook = savedHook
+			os.Remove(hookLog)
+		}()
 		op["feeds_sub"] = feedsOut
 		width, height := I(op, "width"), I(op, "height")
 		var fm sync.Mutex
@@ -125,7 +155,7 @@ func init() {
 		if err := s.Subcommand("open", start); err != nil {
 			return map[string]any{"subcommanderr": true}
 		}
-		if !waitSettled(s) {
+		if !waitSettledHeld(s) {
 			return map[string]any{"wedged": "start"}
 		}
 		snaps = append(snaps, s.VerifSnapshot())
@@ -141,21 +171,58 @@ func init() {
 				curHeight = h
 				fm.Unlock()
 				s.SetWidthHeight(w, h)
-				if !waitSettled(s) {
+				if !waitSettledHeld(s) {
 					return map[string]any{"wedged": "after resize", "snaps": snaps}
+				}
+				snaps = append(snaps, s.VerifSnapshot())
+				continue
+			}
+			if strings.HasPrefix(k, "LOADRESIZE ") {
+				/* a key token that starts a load, and a terminal resize while the page is still
+				   loading (the simulator answers slowly for this one step) */
+				var w, h int
+				fmt.Sscanf(k, "LOADRESIZE %d %d ", &w, &h)
+				rest := strings.SplitN(k, " ", 4)[3]
+				atomic.StoreInt64(&simLatencyMicros, 60000)
+				for _, b := range []byte(rest) {
+					s.Update(b)
+				}
+				fm.Lock()
+				curHeight = h
+				fm.Unlock()
+				s.SetWidthHeight(w, h)
+				atomic.StoreInt64(&simLatencyMicros, 0)
+				if !waitSettledHeld(s) {
+					return map[string]any{"wedged": "after a resize while loading", "snaps": snaps}
+				}
+				snaps = append(snaps, s.VerifSnapshot())
+				continue
+			}
+			if k == "HOOKDONE" {
+				/* every hook started so far exits now */
+				releaseHooks()
+				if !waitSettledHeld(s) {
+					return map[string]any{"wedged": "after the hook exited", "snaps": snaps}
 				}
 				snaps = append(snaps, s.VerifSnapshot())
 				continue
 			}
 			for _, b := range []byte(k) {
 				s.Update(b)
-				if !waitSettled(s) {
+				if !waitSettledHeld(s) {
 					return map[string]any{"wedged": fmt.Sprintf("after key %q", b), "snaps": snaps}
 				}
 			}
 			snaps = append(snaps, s.VerifSnapshot())
 		}
 		op["keys_sub"] = keys
+		/* what the hook was started with, in order */
+		opened := []any{}
+		if raw, err := os.ReadFile(hookLog); err == nil {
+			for _, l := range strings.Split(strings.TrimSuffix(string(raw), "\n"), "\n") {
+				opened = append(opened, l)
+			}
+		}
 		fm.Lock()
 		hs := []any{}
 		bad := []any{}
@@ -168,7 +235,7 @@ func init() {
 		op["frames_sample"] = toAnyList(lastN(all, 3))
 		_ = bad
 		sm.takeLog()
-		return map[string]any{"snaps": snaps}
+		return map[string]any{"snaps": snaps, "opened": opened}
 	}
 	groups["C07"] = group{gen: genUI}
 }
@@ -190,6 +257,10 @@ func genUI(r *rand.Rand, n int, emit func(Op)) {
 		/* strings the accessors have to sanitise (tabs, CR LF, other controls) on objects that
 		   many posts share as their author */
 		if r.Intn(2) == 0 {
+			alice["icon"] = map[string]any{"type": "Image", "url": "https://m.example/alice.png", "mediaType": "image/png"}
+			bob["image"] = []any{map[string]any{"type": "Image", "url": "https://m.example/bob-banner.jpg"}, map[string]any{"type": "Image", "url": "https://m.example/bob-banner-big.jpg", "mediaType": "image/jpeg"}}
+		}
+		if r.Intn(2) == 0 {
 			alice["summary"] = "first line\r\nsecond\tline \x07"
 			alice["mediaType"] = "text/plain"
 			bob["summary"] = "bio with\ttab"
@@ -199,6 +270,21 @@ func genUI(r *rand.Rand, n int, emit func(Op)) {
 		noteFields := []map[string]any{}
 		mkNote := func(h int, name string, author any, extra map[string]any) string {
 			fields := map[string]any{"type": "Note", "id": g.url(h, name), "mediaType": "text/plain"}
+			/* media: what the o key opens (typed, untyped, several candidates, none) */
+			switch weighted(r, 5, 2, 1, 1, 1) {
+			case 1:
+				fields["url"] = []any{map[string]any{"type": "Link", "href": "https://m.example/" + name + ".mp4", "mediaType": "video/mp4"}}
+			case 2:
+				fields["type"] = "Video"
+				fields["url"] = []any{
+					map[string]any{"type": "Link", "href": "https://m.example/" + name + ".html", "mediaType": "text/html"},
+					map[string]any{"type": "Link", "href": "https://m.example/" + name + "-small.mp4", "mediaType": "video/mp4", "height": 240, "width": 320},
+					map[string]any{"type": "Link", "href": "https://m.example/" + name + "-big.mp4", "mediaType": "video/mp4", "height": 1080, "width": 1920}}
+			case 3:
+				fields["url"] = map[string]any{"type": "Link", "href": "https://m.example/" + name + ".bin"}
+			case 4:
+				fields["url"] = pick(r, []any{[]any{}, "https://m.example/shorthand", 5, []any{map[string]any{"type": "Link"}}})
+			}
 			switch weighted(r, 6, 1, 1) {
 			case 0:
 				fields["published"] = time.Date(2024, 1, 1+r.Intn(20), r.Intn(24), 0, 0, 0, time.UTC).Format(time.RFC3339)
@@ -317,11 +403,34 @@ func genUI(r *rand.Rand, n int, emit func(Op)) {
 			case 3:
 				keys = append(keys, pick(r, []string{":feed home\r", ":bogus x\r", ":open\r", ":\r", ": \r", ":open  \r", ":open ./file\r", ":x\x7f\x7f\x7f", "\x1b", "\x7f",
 					/* multi-byte input and backspace: the buffer is edited by runes */
-					":é\x7f", ":é\x7f\x7f", ":é\x7f\x7fj", ":aé漢\x7f\x7f\x7f\x7fk", ":😀\x7f\x7f\x7f\x7f\x7f", ":é\x7f\x7f\x7f\x7f\x7f "}))
+					":a\nb", ":x\ny z\r", ":\n\r", "1\n", ":é\x7f", ":é\x7f\x7f", ":é\x7f\x7fj", ":aé漢\x7f\x7f\x7f\x7fk", ":😀\x7f\x7f\x7f\x7f\x7f", ":é\x7f\x7f\x7f\x7f\x7f "}))
 			case 4:
 				keys = append(keys, string([]byte{byte(r.Intn(256))}))
 			case 5:
 				keys = append(keys, pick(r, []string{"\x00", "\xff", "\t", "\n", "Z", "~", "é"}))
+			}
+		}
+		/* a resize that arrives while a page is loading */
+		if r.Intn(3) == 0 {
+			for n := 1 + r.Intn(2); n > 0; n-- {
+				tok := fmt.Sprintf("LOADRESIZE %d %d %s", 1+r.Intn(120), 2+r.Intn(58), pick(r, []string{":open " + pick(r, starts) + "\r", " ", "1.", ":feed home\r", "c", "a"}))
+				at := r.Intn(len(keys) + 1)
+				keys = append(keys[:at:at], append([]any{tok}, keys[at:]...)...)
+			}
+		}
+		/* media: open something externally, type while the hook is still running, let it exit */
+		if r.Intn(2) == 0 {
+			for n := 1 + r.Intn(3); n > 0; n-- {
+				burst := []any{pick(r, []string{"o", "o", "p", "b", "1\r", "2\r", "a"})}
+				for k := r.Intn(4); k > 0; k-- {
+					burst = append(burst, pick(r, []string{"1", "2", "j", "k", "\x1b", ":", "\x7f", "o", "1.", "2\r", " ", "h"}))
+				}
+				burst = append(burst, "HOOKDONE")
+				if r.Intn(3) == 0 {
+					burst = append(burst, pick(r, []string{"j", "\x1b", "1"}), "HOOKDONE")
+				}
+				at := r.Intn(len(keys) + 1)
+				keys = append(keys[:at:at], append(burst, keys[at:]...)...)
 			}
 		}
 		/* history walks: several pages opened, some steps back, a new page opened from there,
